@@ -189,8 +189,13 @@ class Connection(object):
         with self._write_lock:
             if self.networking_thread is not None and \
                not self.networking_thread.interrupt or \
-               self.new_networking_thread is not None:
+               self.new_networking_thread is not None and \
+               not self.new_networking_thread.interrupt:
                 raise InvalidState('A networking thread is already running.')
+            elif self.new_networking_thread is not None:
+                # A successor thread was interrupted by disconnect() before
+                # it took over from its predecessor: reuse it.
+                self.new_networking_thread.interrupt = False
             elif self.networking_thread is None:
                 self.networking_thread = NetworkingThread(self)
                 self.networking_thread.start()
@@ -424,7 +429,8 @@ class Connection(object):
     def _check_connection(self):
         if self.networking_thread is not None and \
            not self.networking_thread.interrupt or \
-           self.new_networking_thread is not None:
+           self.new_networking_thread is not None and \
+           not self.new_networking_thread.interrupt:
             raise InvalidState('There is an existing connection.')
 
     def _connect(self):
